@@ -1,8 +1,9 @@
 import LhasaV.Driver.OpsCrc
+import LhasaV.Driver.OpsHeader
 /-! `lhv`: one operation per input line, one canonical result line per operation. -/
 namespace LhasaV.Driver
 
-def dispatchers : List (List String → Option String) := [opCrc]
+def dispatchers : List (List String → Option String) := [opCrc, opHeader]
 
 def runLine (line : String) : String :=
   let toks := (line.trimAscii.toString.splitOn " ").filter (· ≠ "")
